@@ -125,7 +125,19 @@ pub fn kmer_step<K: SymK, const N: usize, const JOIN_EQ: bool>() {
     kani::assume(precondition);
 
     let index = BoomHashMap2::new(keys.to_vec(), exts.to_vec(), data.to_vec());
-    let set = avail_set(&avail);
+    // availability is kept per perfect-hash slot: the identity in the model, a permutation in the
+    // real boomphf that native replays run against
+    let mut set = BitSet::with_capacity(N);
+    let mut i = 0;
+    while i < N {
+        if avail[i] {
+            #[cfg(test)]
+            set.insert(index.get_key_id(&keys[i]).expect("row key is in the table") as usize);
+            #[cfg(not(test))]
+            set.insert(i); // the model M1 keeps insertion order (checked in walk_ops::slots)
+        }
+        i += 1;
+    }
     let got = if JOIN_EQ {
         let spec: ScmapCompress<u8> = ScmapCompress::new();
         try_extend_kmer_step(stranded, &spec, &index, set, kmer, dir)
